@@ -32,11 +32,36 @@ def run(rep, tier, rng):
                     ending = rng.randint(0, 1)
                     cases.append(C.whist_case(hs, ending, wire(hx)))
                     meta.append({"h": hx, "pos": pos, "t1": t1, "t2": t2, "without": C.whist_case(hs, ending, wire(h))})
+    # the rejected call right after a finalize that FAILED (one-shot destination fault inside finalize): the writer is
+    # then in its `finalize_interrupted` state, which a rejected write must not touch either
+    fpairs = [(t1, t2) for t1 in shapes.ALL_CODES for t2 in shapes.ALL_CODES if t1 != t2]
+    if tier != "thorough":
+        fpairs = rng.sample(fpairs, 20)
+    probes = []
+    for t1, t2 in fpairs:
+        a, x = shapes.gen_ctor(rng, t1, "small"), shapes.gen_ctor(rng, t2, "small")
+        probes.append((t1, t2, a, x))
+    nops = [(C.parse_whist(r)["shp"]["ops"] - 16, C.parse_whist(r)["shx"]["ops"] - 16)
+            for r in sfv.run_impl(dev, [C.whist_case(True, 0, [("w", a)]) for (_, _, a, _) in probes])]
+    for (t1, t2, a, x), (n_a, n_ax) in zip(probes, nops):
+        for j in ((0, 1, 3, 7, 13, 14, 15) if tier == "thorough" else (0, 6, 14)):
+            for hs in (True, False):
+                for dest in ((1, 2) if hs else (1,)):
+                    k = (n_a if dest == 1 else n_ax) + j      # the j-th operation of the first finalize on that destination
+                    hx = [("w", a), ("f",), ("w", x), ("w", a), ("f",)]
+                    h = [("w", a), ("f",), ("w", a), ("f",)]
+                    cases.append(C.whist_case(hs, 0, hx, fault=(dest, k, 0)))
+                    meta.append({"h": ["a", "F", "x", "a", "f"], "pos": 2, "t1": t1, "t2": t2,
+                                 "without": C.whist_case(hs, 0, h, fault=(dest, k, 0))})
+    rep.cov["after_failed_finalize_cases"] = sum(1 for m in meta if "F" in m["h"])
     rep.cov["rule"] = ("all 13x12 ordered pairs (file type, offered type); histories 'a' + {a, finalize}^<=%d with the rejected "
                        "write inserted at every later position (sampled in the quick tier), with/without shx, ending drop or "
                        "finalize+drop; oracle: the rejected call returns MismatchShapeType{requested: file type, actual: offered "
                        "type}, and bytes, positions and complete operation traces of both destinations equal those of the history "
-                       "without the call; non-trivial = distinct case" % L)
+                       "without the call; the same with the rejected call placed right after a finalize that failed (one-shot fault at "
+                       "several operations of the header rewrite, either destination); through the complete Writer (real dbase): "
+                       "the row of the rejected pair is not written, counts stay equal and later pairs stay paired; "
+                       "non-trivial = distinct case" % L)
     rep.sample({"history": "".join(meta[0]["h"]), "file_type": meta[0]["t1"], "offered": meta[0]["t2"]})
     impl = stages.correspondence(rep, "whist", dev, cases, "whist")
     wo = {}
@@ -44,7 +69,7 @@ def run(rep, tier, rng):
         wo.setdefault(tuple(m["without"]), None)
     wl = list(wo)
     wres = dict(zip(wl, [C.parse_whist(r) for r in sfv.run_impl(dev, [list(w) for w in wl])]))
-    nfail = 0
+    nfail, n_after_failed = 0, 0
     for c, m, r in zip(cases, meta, impl):
         res, base = C.parse_whist(r), wres[tuple(m["without"])]
         msg = None
@@ -62,12 +87,55 @@ def run(rep, tier, rng):
                     if res[dv]["buf"] != base[dv]["buf"] or res[dv]["log"] != base[dv]["log"] or res[dv]["ops"] != base[dv]["ops"]:
                         msg = "the rejected write left a trace on the %s destination" % dv
         rep.dist("pair_%d_%d" % (m["t1"], m["t2"]))
+        if "F" in m["h"] and "special" not in res and res["results"][1][0] == "err":
+            n_after_failed += 1
         if msg:
             nfail += 1
             if nfail == 1:
                 rep.violation({"kind": "oracle", "what": msg, "case_kind": "whist", "case": c, "history": "".join(m["h"]),
                                "impl_result": r})
+    # ---- through the complete writer: the rejected shape's attribute row is not written either
+    import C08
+    pcases, pmeta = [], []
+    ppairs = [(t1, t2) for t1 in shapes.ALL_CODES for t2 in shapes.ALL_CODES if t1 != t2]
+    if tier != "thorough":
+        ppairs = rng.sample(ppairs, 40)
+    pops = [("count",), ("it", -1)]
+    for t1, t2 in ppairs:
+        a, b, x = shapes.gen_ctor(rng, t1, "small", True, 1, 2), shapes.gen_ctor(rng, t1, "small", True, 2, 3), shapes.gen_ctor(rng, t2, "small", True, 1, 2)
+        for h in (["a", "x"], ["a", "x", "b"], ["a", "b", "x", "x", "a"]):
+            calls = [(0, a if ch == "a" else b if ch == "b" else x) for ch in h]
+            pcases.append(C08.pair_case(calls, pops))
+            pmeta.append((h, t1, t2))
+    pimpl = stages.correspondence(rep, "pair", dev, pcases, "pair(rejected shape through the complete writer)", vm_sample=30)
+    for c, (h, t1, t2), r in zip(pcases, pmeta, pimpl):
+        msg = None
+        if r in ([-4], [-2], [2]):
+            msg = "panic in the complete writer/reader"
+        else:
+            res = C08.parse_pair(r, len(h), pops)
+            n_ok = sum(1 for ch in h if ch != "x")
+            for j, ch in enumerate(h):
+                want = ("err", 8, t1, t2) if ch == "x" else ("ok",)
+                if res["results"][j] != want:
+                    msg = "call %d of %s returned %r, expected %r" % (j, "".join(h), res["results"][j], want)
+            if not msg and res["counts"] != (n_ok, n_ok, n_ok):
+                msg = ("after %s: %d shp records, %d shx entries, %d dbf rows; %d pairs were accepted (the row of a rejected "
+                       "shape must not be written)" % ("".join(h), res["counts"][0], res["counts"][1], res["counts"][2], n_ok))
+            elif not msg and "ops" in res:
+                ids = [it[2] for it in res["ops"][1]["items"] if it[0] == "ok"]
+                want_ids = [j for j, ch in enumerate(h) if ch != "x"]
+                if ids != want_ids:
+                    msg = "pairs read back carry row ids %r, expected %r" % (ids, want_ids)
+            elif not msg:
+                msg = "reader could not be opened"
+        if msg:
+            nfail += 1
+            if nfail == 1:
+                rep.violation({"kind": "oracle", "what": msg, "case_kind": "pair", "case": c[:400], "history": "".join(h)})
+    rep.cov["complete_writer_histories"] = len(pcases)
+    rep.cov["rejected_call_after_a_finalize_that_really_failed"] = n_after_failed
     rep.cov["pairs_covered"] = len([k for k in rep.cov["distribution"] if k.startswith("pair_")])
     rep.cov["distribution"] = {"cases": len(cases), "pairs": rep.cov["pairs_covered"]}
     rep.cov["oracle"] = {"checked": len(cases), "failing": nfail}
-    rep.assumptions += ["the complete writer (attribute row not written for a rejected shape) is covered by C08"]
+    rep.assumptions += ["dbase is the real crate in the complete-writer stage; in the model it is an ordered row store"]
